@@ -188,6 +188,63 @@ c.raise_case('bad_list_type', 'TypeError',
 c.ensure('only_when_unlocked', lambda x: z3.Not(locked(x.old)))
 c.ensure('not_both_lists', lambda x: z3.Not(z3.And(_truthy(x.a.allowlist),
                                                    _truthy(x.a.denylist))))
+# from the property text (C13): "Invalid names or modules ... are rejected without registering
+# anything" -- so whatever IS accepted carries a valid name / module, and it is the name GIVEN
+c.ensure('a_given_name_is_accepted_only_if_valid', lambda x: z3.Implies(
+    z3.Not(x.a.name.is_none),
+    z3.Or(world.re_match('IDENTIFIER_RE', x.a.name.inner.e),
+          world.re_match('MODULE_RE', x.a.name.inner.e))))
+c.ensure('a_given_module_is_accepted_only_if_valid', lambda x: z3.Implies(
+    z3.Not(x.a.module.is_none), world.re_match('MODULE_RE', x.a.module.inner.e)))
+
+
+def _registered_entry(x):
+  """The registry entry written for this registration (witness: the local `selector`)."""
+  sel = x.env.selector.e
+  m = M(x.new['_REGISTRY'])
+  cfg = sym.coerce(VObj(m.val[sel]), Configurable)
+  return sel, m, cfg
+
+
+def _reg_post(x):
+  sel, m, cfg = _registered_entry(x)
+  return z3.And(
+      m.dom[sel],
+      cfg.fields['selector'].e == sel,
+      cfg.fields['wrapped'].e == x.a.fn_or_cls.e,          # the ORIGINAL object
+      cfg.fields['wrapper'].e == x.result.e,               # what the caller gets back
+      z3.Implies(z3.Not(x.a.name.is_none), cfg.fields['name'].e == x.a.name.inner.e),
+      z3.Implies(z3.Not(x.a.module.is_none), z3.And(
+          z3.Not(cfg.fields['module'].is_none),
+          cfg.fields['module'].inner.e == x.a.module.inner.e)),
+      cfg.fields['allowlist'].kind.box(cfg.fields['allowlist']) ==
+      x.a.allowlist.kind.box(x.a.allowlist),
+      cfg.fields['denylist'].kind.box(cfg.fields['denylist']) ==
+      x.a.denylist.kind.box(x.a.denylist),
+      # the full name is the module (when there is one) and the name, dotted
+      sel == z3.If(z3.And(z3.Not(cfg.fields['module'].is_none),
+                          cfg.fields['module'].inner.e != sym.str_lit('')),
+                   world.str_cat([cfg.fields['module'].inner.e, sym.str_lit('.'),
+                                  cfg.fields['name'].e]),
+                   cfg.fields['name'].e))
+
+
+c.ensure('registers_the_original_under_the_given_name_module_and_lists', _reg_post)
+_lists_ok = lambda x, lst: z3.Or(lst.is_none, sym.forall([t_], z3.Implies(
+    z3.And(0 <= t_, t_ < lst.inner.len), mhp(x.a.fn_or_cls.e, lst.inner.arr[t_]))))
+c.ensure('every_allow_or_deny_listed_name_is_a_parameter_of_the_original', lambda x: z3.And(
+    _lists_ok(x, x.a.allowlist), _lists_ok(x, x.a.denylist)))
+c.exc_ensure('an_unknown_listed_name_is_rejected_before_anything_is_registered',
+             lambda x: z3.Implies(z3.BoolVal(
+                 getattr(x.exc, 'raised_by', None) == 'config.py::_validate_parameters'),
+                 _reg_same(x)))
+# (that no OTHER name changes is not a postcondition here: registering a class also registers its
+# configurable methods, inside the assumed _decorate_fn_or_cls)
+c.ensure('an_existing_name_is_replaced_only_by_the_same_object_or_interactively', lambda x: z3.Or(
+    z3.Not(M(x.old['_REGISTRY']).dom[x.env.selector.e]),
+    x.old['_INTERACTIVE_MODE'].e,
+    sym.ufun('attr_wrapped', sym.Val, sym.Val)(M(x.old['_REGISTRY']).val[x.env.selector.e]) ==
+    x.a.fn_or_cls.e))
 c.may_raise_other = True
 
 
